@@ -64,6 +64,7 @@ def raw_mutants(r, base, quick):
                 out.append(("swap-regions", [x, y, k], bytes(m[:n])))
             x = r.randrange(a, b)
             out.append(("dup-region", [x], d[:x] + d[x:x + 32] + d[x:]))
+    out.append(("unaltered", [], d))   # the quantifier is "every byte sequence presented as a file": the valid ones too (success => the reference's content)
     out.append(("tail-garbage", [16], d + r.randbytes(16)))
     out.append(("tail-zeros", [1000], d + bytes(1000)))
     return out
@@ -316,7 +317,7 @@ class C02(core.Check):
     def cases(self, ctx):
         r = core.rng(self.seed, "C02", "mut")
         bases = basefiles.small_set(ctx["zh"], self.work, self.seed, count=None if not self.quick else 16)
-        bases += basefiles.ref_set(self.seed, 4 if self.quick else 16)
+        bases += basefiles.ref_set(self.seed, 8 if self.quick else 21)
         if len(bases) < 8:
             raise RuntimeError("could not produce base files")
         self.count("base_files", len(bases))
